@@ -21,6 +21,14 @@
 //!   in every spelling of the octets and in every field of that kind: accepted
 //!   iff the decoded value is within the limit, with exactly the decoded octets.
 //!
+//! * `zone` / `generic` -- the secondary entry point
+//!   `zonetree::parsed::Zonefile::try_from(inplace::Zonefile)` and the zone
+//!   built from it: every rendering of a logical file gives the same verdict
+//!   and the same zone content; `generic` adds the RFC 3597 rendering of
+//!   every record (`TYPEnnn`, `CLASSnnn`, `\# len hex`) at every kind of owner
+//!   position, well formed (same records as the typed rendering) and damaged
+//!   (totality).
+//!
 //! Totality oracle: no panic, no hang (watchdog), at most `len+2` entries,
 //! the error (if any) carries a line/column inside the input, every returned
 //! record is a well-formed wire record, and a second reader (built through
@@ -2469,6 +2477,701 @@ fn run_zone(sh: &Shared, k: usize, per_case_wd: bool, only: Option<usize>) -> (u
     (evals.load(AO::Relaxed), failing.load(AO::Relaxed))
 }
 
+// ---------------- space G: RFC 3597 generic renderings -------------------
+//
+// RFC 3597 section 5 gives every record a second textual rendering: the type
+// as `TYPEnnn`, the class as `CLASSnnn`, and the RDATA as `\# <length> <hex
+// words>`; the forms may be mixed freely (`e.example. CLASS1 TYPE1 10.0.0.2`,
+// `e.example. IN A \# 4 0A000001`).  A record written that way is the same
+// logical content as its type-specific rendering, so C07's relation applies
+// to it, at the reader (`next_entry`: the same wire record) and at the
+// secondary entry point `parsed::Zonefile::try_from` and what is built from
+// it (the same error-or-ok verdict, the same zone content).
+//
+// G1: one record of every type of the menus used elsewhere in this file, at
+//     every kind of owner position (apex, below the apex = a potential cut,
+//     below an existing cut, out of zone), in every combination of owner
+//     form x class/TTL form (IN / CLASS1 / omitted) x type spelling
+//     (mnemonic / TYPEnnn) x RDATA form (typed, generic as one word, as two
+//     upper-case words, as one word per octet) x line layout.
+// G2: the logical files of space Z (SOA + every sequence of <= k records
+//     reaching every arm of `insert`) with every record, the SOA included,
+//     in typed and in generic form.
+// G3: damaged generic forms (totality): declared length off by one, odd
+//     number of digits, a non-hex digit, missing data / length, a length
+//     that is no u16, well-formed generic data that is not a value of the
+//     type (empty, truncated, one octet too many), an unclosed parenthesis.
+//
+// All observations of this space are in wire format (owner, type, class,
+// TTL, RDATA octets; error *variants* with the record they carry), never
+// `Display`, because the presentation of a record may legitimately differ
+// between the two renderings.
+
+struct GRec {
+    mnem: &'static str,
+    rtype: u16,
+    /// type-specific RDATA tokens (names absolute); empty = no such form
+    typed: Vec<String>,
+    wire: Vec<u8>,
+}
+
+fn gen_menu() -> Vec<GRec> {
+    let origin: Labels = vec!["z"];
+    let k = |kind: Kind| GRec { mnem: kind.mnemonic(), rtype: kind.rtype(), typed: if kind == Kind::Unk { Vec::new() } else { data_tokens(kind, 0, &origin, false) }, wire: rdata_wire(kind) };
+    let g = |mnem: &'static str, rtype: u16, typed: &[&str], wire: Vec<u8>| GRec { mnem, rtype, typed: typed.iter().map(|s| s.to_string()).collect(), wire };
+    vec![
+        k(Kind::A),
+        g("NS", 2, &["ns.c.z."], name_wire(&["ns", "c", "z"])),
+        g("CNAME", 5, &["a.z."], name_wire(&["a", "z"])),
+        k(Kind::Soa),
+        g("HINFO", 13, &["k", "\"x y\""], vec![1, b'k', 3, b'x', b' ', b'y']),
+        k(Kind::Mx),
+        k(Kind::Txt),
+        g("AAAA", 28, &["2001:db8::1"], vec![0x20, 0x01, 0x0d, 0xb8, 0, 0, 0, 0, 0, 0, 0, 0, 0, 0, 0, 1]),
+        g("DS", 43, &["1", "8", "2", "abcd"], vec![0, 1, 8, 2, 0xab, 0xcd]),
+        g("SSHFP", 44, &["1", "1", "ab"], vec![1, 1, 0xab]),
+        k(Kind::Nsec),
+        k(Kind::Nsec3),
+        k(Kind::Svcb),
+        k(Kind::Unk),
+        g("TYPE65281", 65281, &[], Vec::new()),
+    ]
+}
+
+const G_OWNERS: [(&str, &[&str]); 4] = [("apex", &["z"]), ("below-apex", &["c", "z"]), ("below-cut", &["ns", "c", "z"]), ("out-of-zone", &["x", "y"])];
+const G_OWNER_FORMS: [OwnerForm; 3] = [OwnerForm::Abs, OwnerForm::Rel, OwnerForm::InhTab];
+const G_CT: [&[&str]; 6] = [&["IN", "60"], &["CLASS1", "60"], &["60", "CLASS1"], &["CLASS1"], &["60"], &[]];
+const G_CT_NAMES: [&str; 6] = ["IN-ttl", "CLASS1-ttl", "ttl-CLASS1", "CLASS1-only", "ttl-only", "neither"];
+const G_TSPELL_NAMES: [&str; 2] = ["mnemonic", "TYPEnnn"];
+const G_DFORM_NAMES: [&str; 4] = ["typed", "generic-one-word", "generic-two-words-uppercase", "generic-word-per-octet"];
+const G_LAYOUT_NAMES: [&str; 4] = ["plain", "tabs-crlf-parens-after-type", "multi-space-parens-after-first-rdata-token-comment", "parens-after-second-rdata-token-blank-and-comment-lines"];
+const G1_SIZES: [usize; 5] = [3, 6, 2, 4, 4];
+const G1_SLOTS: [&str; 5] = ["owner", "class-ttl", "type-spelling", "rdata-form", "layout"];
+
+/// RDATA tokens of a record in form `f` (0 = typed, 1..=3 generic).
+fn g_data_tokens(rec: &GRec, f: usize) -> Option<Vec<String>> {
+    if f == 0 {
+        return if rec.typed.is_empty() { None } else { Some(rec.typed.clone()) };
+    }
+    let mut t = vec!["\\#".to_string(), rec.wire.len().to_string()];
+    let h = hex(&rec.wire);
+    match f {
+        1 => {
+            if !rec.wire.is_empty() {
+                t.push(h);
+            }
+        }
+        2 => {
+            if rec.wire.len() < 2 {
+                return None;
+            }
+            let cut = (rec.wire.len() / 2) * 2;
+            t.push(h[..cut].to_uppercase());
+            t.push(h[cut..].to_uppercase());
+        }
+        _ => {
+            if rec.wire.len() < 3 {
+                return None;
+            }
+            for o in &rec.wire {
+                t.push(format!("{o:02x}"));
+            }
+        }
+    }
+    Some(t)
+}
+
+fn g_type_token(rec: &GRec, spell: usize) -> Option<String> {
+    match spell {
+        0 => Some(rec.mnem.to_string()),
+        _ => {
+            let t = format!("TYPE{}", rec.rtype);
+            if t == rec.mnem {
+                None // the same token as spelling 0
+            } else {
+                Some(t)
+            }
+        }
+    }
+}
+
+/// Head of every file of space G: origin, SOA, and a delegation of c.z. when
+/// the owner under test lies below it.  Returns (text, entries, state).
+fn g_file_head(pos: usize) -> (String, Vec<Vec<u8>>, RefState) {
+    let mut st = RefState::default();
+    let mut text = String::from("$ORIGIN z.\nz. IN 60 SOA ns.z. h.z. 1 60 60 60 60\n");
+    let apex: Labels = vec!["z"];
+    st.record(Some(&apex), Some(60), Some(1));
+    let mut expected = vec![rec_wire(&apex, 6, 1, 60, &rdata_wire(Kind::Soa))];
+    if pos == 2 {
+        text.push_str("c IN 60 NS ns.c.z.\n");
+        let c: Labels = vec!["c", "z"];
+        st.record(Some(&c), Some(60), Some(1));
+        expected.push(rec_wire(&c, 2, 1, 60, &name_wire(&["ns", "c", "z"])));
+    }
+    (text, expected, st)
+}
+
+const G_SENTINEL: &str = "s IN 60 A 192.0.2.7\n";
+
+fn g_sentinel_entry() -> Vec<u8> {
+    rec_wire(&["s", "z"], 1, 1, 60, &[192, 0, 2, 7])
+}
+
+/// One G1 file.  `c` = [owner form, class/TTL form, type spelling, RDATA
+/// form, layout].  A context record with the owner under test precedes the
+/// record exactly when its owner is inherited from it (`context` forces it,
+/// for the canonical rendering of the same logical file).
+fn g1_case(rec: &GRec, pos: usize, c: &[usize], context: bool) -> Option<(String, Vec<Vec<u8>>)> {
+    let origin: Labels = vec!["z"];
+    let abs: Labels = G_OWNERS[pos].1.to_vec();
+    let of = G_OWNER_FORMS[c[0]];
+    let context = context || (of == OwnerForm::InhTab && pos != 0);
+    let (mut text, mut expected, mut st) = g_file_head(pos);
+    if context {
+        text.push_str(&format!("{}. IN 60 A 192.0.2.9\n", abs.join(".")));
+        st.record(Some(&abs), Some(60), Some(1));
+        expected.push(rec_wire(&abs, 1, 1, 60, &[192, 0, 2, 9]));
+    }
+    let (indent, owner_tok) = owner_text(&abs, &origin, of)?;
+    let ct = G_CT[c[1]];
+    let (o, t, cl) = st.record(owner_tok.as_ref().map(|_| &abs), ct.contains(&"60").then_some(60), ct.iter().any(|x| *x != "60").then_some(1))?;
+    if o != abs || t != 60 || cl != 1 {
+        return None;
+    }
+    let mut toks: Vec<String> = Vec::new();
+    if let Some(o) = owner_tok {
+        toks.push(o);
+    }
+    toks.extend(ct.iter().map(|s| s.to_string()));
+    toks.push(g_type_token(rec, c[2])?);
+    let ti = toks.len() - 1;
+    toks.extend(g_data_tokens(rec, c[3])?);
+    let lay = match c[4] {
+        0 => Layout { sep: 0, cont: None, end: 0 },
+        1 => Layout { sep: 1, cont: Some((1, ti)), end: 1 },
+        2 => Layout { sep: 2, cont: Some((2, ti + 1)), end: 3 },
+        _ => Layout { sep: 0, cont: Some((4, ti + 2)), end: 8 },
+    };
+    text.push_str(&render_line(&indent, &toks, lay)?);
+    expected.push(rec_wire(&abs, rec.rtype, 1, 60, &rec.wire));
+    text.push_str(G_SENTINEL);
+    expected.push(g_sentinel_entry());
+    Some((text, expected))
+}
+
+fn stored_rec_hex(r: &StoredRecord) -> String {
+    let mut v = Vec::new();
+    let _ = r.compose(&mut v);
+    hex(&v)
+}
+
+/// What went wrong with a record, by variant, with the record in wire
+/// format; the type / class the library names next to it is left out (it is
+/// a sample of a hash map where several types exist).
+fn record_error_repr(name: &Name<Bytes>, e: &RecordError) -> String {
+    #[allow(unreachable_patterns)]
+    let (tag, rec) = match e {
+        RecordError::ClassMismatch(r, _) => ("class-mismatch", Some(r)),
+        RecordError::IllegalZoneCut(r, _) => ("illegal-zone-cut", Some(r)),
+        RecordError::IllegalRecord(r, _) => ("illegal-record", Some(r)),
+        RecordError::IllegalCname(r, _) => ("illegal-cname", Some(r)),
+        RecordError::MultipleCnames(r) => ("multiple-cnames", Some(r)),
+        RecordError::MissingSoa(r) => ("missing-soa", Some(r)),
+        RecordError::MalformedRecord(_) => ("malformed", None),
+        RecordError::InvalidRecord(_) => ("invalid", None),
+        _ => ("other", None),
+    };
+    format!("{tag}@{}:{}", hex(name.as_slice()), rec.map(stored_rec_hex).unwrap_or_default())
+}
+
+fn record_errors_repr(errs: ZoneErrors<RecordError>) -> String {
+    let mut v: Vec<String> = errs.into_iter().map(|(n, e)| record_error_repr(&n, &e)).collect();
+    v.sort();
+    v.join(" ; ")
+}
+
+/// `observe_zone` in wire format: the route from the text to a zone, with
+/// nothing in the result that depends on how a record is presented.
+fn observe_zone_wire(text: &str, route: usize) -> Result<String, String> {
+    use domain::base::rdata::ComposeRecordData;
+    use domain::zonetree::error::ContextError;
+    guard(|| {
+        let bytes = text.as_bytes();
+        let parsed: Result<parsed::Zonefile, String> = if route == 0 {
+            parsed::Zonefile::try_from(reader_a(bytes)).map_err(record_errors_repr)
+        } else {
+            let mut p = parsed::Zonefile::new(apex_z(), Class::IN);
+            p.set_origin(apex_z());
+            let mut errs = ZoneErrors::<RecordError>::default();
+            for res in reader_a(bytes) {
+                match res {
+                    Ok(Entry::Record(r)) => {
+                        let rec: StoredRecord = r.flatten_into();
+                        let name = rec.owner().clone();
+                        if let Err(e) = p.insert(rec) {
+                            errs.add_error(name, e);
+                        }
+                    }
+                    Ok(Entry::Include { .. }) => {}
+                    Err(e) => {
+                        errs.add_error(Name::root_bytes(), RecordError::MalformedRecord(e));
+                        break;
+                    }
+                }
+            }
+            if errs.is_empty() {
+                Ok(p)
+            } else {
+                Err(record_errors_repr(errs))
+            }
+        };
+        match parsed {
+            Err(e) => format!("parsed-error {e}"),
+            Ok(p) => {
+                let head = format!("origin={} class={}", p.origin().map(|n| hex(n.as_slice())).unwrap_or_default(), p.class().map(|c| c.to_int().to_string()).unwrap_or_default());
+                match ZoneBuilder::try_from(p) {
+                    Err(e) => {
+                        let mut v: Vec<String> = e
+                            .into_iter()
+                            .map(|(n, e)| {
+                                #[allow(unreachable_patterns)]
+                                let tag = match e {
+                                    ContextError::MissingNs => "missing-ns".to_string(),
+                                    ContextError::InvalidZonecut(_) => "invalid-zone-cut".to_string(),
+                                    ContextError::InvalidCname(_) => "invalid-cname".to_string(),
+                                    ContextError::OutOfZone(rt) => format!("out-of-zone:{}", rt.to_int()),
+                                    _ => "other".to_string(),
+                                };
+                                format!("{tag}@{}", hex(n.as_slice()))
+                            })
+                            .collect();
+                        v.sort();
+                        format!("builder-error {head} {}", v.join(" ; "))
+                    }
+                    Ok(b) => {
+                        let zone = b.build();
+                        let out: Arc<Mutex<Vec<String>>> = Arc::new(Mutex::new(Vec::new()));
+                        let o2 = out.clone();
+                        zone.read().walk(Box::new(move |name, rrset, cut| {
+                            let mut data: Vec<String> = rrset
+                                .data()
+                                .iter()
+                                .map(|d| {
+                                    let mut v = Vec::new();
+                                    let _ = d.compose_rdata(&mut v);
+                                    hex(&v)
+                                })
+                                .collect();
+                            data.sort();
+                            o2.lock().unwrap().push(format!("{} {} {} cut={cut} [{}]", hex(name.as_slice()), rrset.rtype().to_int(), rrset.ttl().as_secs(), data.join(" | ")));
+                        }));
+                        let mut lines = out.lock().unwrap().clone();
+                        lines.sort();
+                        format!("zone {head} {}", lines.join(" ; "))
+                    }
+                }
+            }
+        }
+    })
+}
+
+/// Verdict of one text of space G against its reference:
+/// (stage, class, description); None = as the reference says.
+/// `expected` = the entries `next_entry` has to return (None: not checked);
+/// `canon` = the wire observation of the canonical rendering of the file.
+fn g_verdict(text: &str, expected: Option<&[Vec<u8>]>, canon: Option<&Result<String, String>>) -> Option<(String, String, String)> {
+    if let Some(exp) = expected {
+        if let Some((class, what)) = layout_verdict(text, exp) {
+            return Some(("reader".into(), class, what));
+        }
+    }
+    if let Some((class, what)) = examine(text.as_bytes(), true).viol {
+        return Some(("totality".into(), class, what));
+    }
+    let o0 = observe_zone_wire(text, 0);
+    if let Some(canon) = canon {
+        if let Some(c) = zone_diff_class(canon, &o0) {
+            return Some(("zone".into(), c, format!("parsed::Zonefile::try_from + ZoneBuilder: the canonical (type-specific) rendering gives {canon:?}, this rendering gives {o0:?}")));
+        }
+    } else if let Err(p) = &o0 {
+        return Some(("zone".into(), format!("panic:{}", norm_panic(p)), format!("parsed::Zonefile::try_from + ZoneBuilder panicked: {p}")));
+    }
+    let o1 = observe_zone_wire(text, 1);
+    if let Some(c) = zone_diff_class(&o0, &o1) {
+        return Some(("insert-route".into(), c, format!("try_from gives {o0:?}, Zonefile::new + insert gives {o1:?}")));
+    }
+    None
+}
+
+/// Canonical rendering of the logical file of a G1 case.
+fn g1_canon(rec: &GRec, pos: usize, context: bool) -> Result<String, String> {
+    let d0 = if rec.typed.is_empty() { 1 } else { 0 };
+    let (text, _) = g1_case(rec, pos, &[0, 0, 0, d0, 0], context).expect("canonical rendering exists");
+    observe_zone_wire(&text, 0)
+}
+
+fn g1_slot_names(c: &[usize]) -> Vec<String> {
+    let names: [String; 5] = [format!("{:?}", G_OWNER_FORMS[c[0]]), G_CT_NAMES[c[1]].into(), G_TSPELL_NAMES[c[2]].into(), G_DFORM_NAMES[c[3]].into(), G_LAYOUT_NAMES[c[4]].into()];
+    (0..5).filter(|i| c[*i] != 0).map(|i| format!("{}={}", G1_SLOTS[i], names[i])).collect()
+}
+
+const GENERIC_COVERAGE: &str = "RFC 3597 renderings, all compared in wire format. G1: 15 records (A, NS, CNAME, SOA, HINFO, MX, TXT, AAAA, DS, SSHFP, NSEC, NSEC3, SVCB, TYPE65280, TYPE65281 with empty RDATA) x owner at {apex, below apex, below a delegation, out of zone} in a file SOA [+ delegation] [+ context record when the owner is inherited] + record + sentinel; renderings owner(abs, rel, inherited) x class/TTL(IN 60, CLASS1 60, 60 CLASS1, CLASS1, 60, none) x type(mnemonic, TYPEnnn) x RDATA(typed, generic one word, two upper-case words, one word per octet) x layout(4); oracle: next_entry returns exactly the logical records, totality oracle incl. try_from, and parsed::Zonefile::try_from + ZoneBuilder + walk (and new + insert) give what the canonical typed rendering gives. G2: SOA + every sequence of <= <K> records of the zone-route menu, every record (SOA too) as typed / typed TYPEnnn CLASS1 / generic / generic TYPEnnn CLASS1, same oracle against the all-typed rendering. G3: every record x owner position x 12 damaged generic forms x hex as one / two words: totality oracle, both zone routes agree and do not panic, malformed forms are rejected at the damaged entry, one word and two words give the same result";
+
+fn run_g1(sh: &Shared, per_case_wd: bool, only: Option<(usize, usize)>) -> (u64, u64) {
+    let menu = gen_menu();
+    let mut items = Vec::new();
+    for ri in 0..menu.len() {
+        for pos in 0..G_OWNERS.len() {
+            if only.map_or(true, |o| o == (ri, pos)) {
+                items.push((ri, pos));
+            }
+        }
+    }
+    let evals = AtomicU64::new(0);
+    let failing = AtomicU64::new(0);
+    items.par_iter().for_each(|&(ri, pos)| {
+        let rec = &menu[ri];
+        if !per_case_wd {
+            sh.wd.enter(|| json!({"part": "generic-chunk", "space": "G1", "rec": ri, "pos": pos}));
+        }
+        let mut l = Local::default();
+        let canon = [g1_canon(rec, pos, false), g1_canon(rec, pos, true)];
+        if let Ok(s) = &canon[0] {
+            l.bump(&format!("generic.G1.canonical.{}", s.split(' ').next().unwrap_or("?")));
+        }
+        let eval = |c: &[usize]| -> Option<Option<(String, String, String)>> {
+            let (text, expected) = g1_case(rec, pos, c, false)?;
+            let context = G_OWNER_FORMS[c[0]] == OwnerForm::InhTab && pos != 0;
+            Some(g_verdict(&text, Some(&expected), Some(&canon[context as usize])))
+        };
+        product(&G1_SIZES, |c| {
+            let Some((text, _)) = g1_case(rec, pos, c, false) else { return };
+            if per_case_wd {
+                sh.wd.enter(|| json!({"part": "generic", "space": "G1", "rec": ri, "pos": pos, "choices": c, "text": text}));
+            }
+            l.evals += 1;
+            if c[4] == 0 {
+                l.nontrivial.push(fnv(text.as_bytes()));
+            }
+            l.bump(&format!("generic.G1.renderings.rdata-form.{}", G_DFORM_NAMES[c[3]]));
+            if let Some(Some((stage, class, what))) = eval(c) {
+                failing.fetch_add(1, AO::Relaxed);
+                l.bump(&format!("generic.G1.failing.{stage}.{class}"));
+                let mut cur = c.to_vec();
+                loop {
+                    let mut changed = false;
+                    for i in 0..cur.len() {
+                        for v in 0..cur[i] {
+                            let mut t = cur.clone();
+                            t[i] = v;
+                            if let Some(Some(x)) = eval(&t) {
+                                if x.0 == stage && x.1 == class {
+                                    cur = t;
+                                    changed = true;
+                                    break;
+                                }
+                            }
+                        }
+                    }
+                    if !changed {
+                        break;
+                    }
+                }
+                let sig = format!("C07|generic|G1|{stage}|type={}|owner={}|{}|{class}", rec.mnem, G_OWNERS[pos].0, g1_slot_names(&cur).join(","));
+                if first_in_thread(&sig) {
+                    let min_text = g1_case(rec, pos, &cur, false).map(|x| x.0).unwrap_or_default();
+                    sh.ctx.violation(&sig, &format!("{what}; minimal rendering {min_text:?}"), json!({"part": "generic", "space": "G1", "rec": ri, "pos": pos, "choices": c, "text": text, "minimal_text": min_text}));
+                }
+            }
+            if per_case_wd {
+                sh.wd.leave();
+            }
+        });
+        evals.fetch_add(l.evals, AO::Relaxed);
+        if !per_case_wd {
+            sh.wd.leave();
+        }
+        sh.absorb(l);
+    });
+    (evals.load(AO::Relaxed), failing.load(AO::Relaxed))
+}
+
+// G2: the logical files of space Z, every record typed or generic
+
+fn zone_menu_wire() -> Vec<(u16, Vec<u8>)> {
+    vec![
+        (2, name_wire(&["ns", "z"])),
+        (1, vec![1, 2, 3, 4]),
+        (16, rdata_wire(Kind::Txt)),
+        (1, vec![1, 2, 3, 9]),
+        (2, name_wire(&["ns", "c", "z"])),
+        (1, vec![192, 0, 2, 53]),
+        (43, vec![0, 1, 8, 2, 0xab, 0xcd]),
+        (5, name_wire(&["a", "z"])),
+        (1, vec![1, 2, 3, 5]),
+        (1, vec![1, 2, 3, 6]),
+    ]
+}
+
+const G2_FORM_NAMES: [&str; 4] = ["typed", "typed-TYPEnnn-CLASS1", "generic-one-word", "generic-two-words-TYPEnnn-CLASS1"];
+
+/// `forms[0]` is the form of the SOA, `forms[1..]` those of the records.
+fn g2_text(menu: &[ZRec], wires: &[(u16, Vec<u8>)], seq: &[usize], forms: &[usize]) -> Option<String> {
+    let line = |owner: &[&str], mnem: &str, rtype: u16, typed: &[&str], wire: &[u8], f: usize| -> Option<String> {
+        let rec = GRec { mnem: "", rtype, typed: typed.iter().map(|s| s.to_string()).collect(), wire: wire.to_vec() };
+        let (class, ty) = if f & 1 == 1 { ("CLASS1", format!("TYPE{rtype}")) } else { ("IN", mnem.to_string()) };
+        let data = g_data_tokens(&rec, [0, 0, 1, 2][f])?;
+        Some(format!("{}. {class} 60 {ty} {}\n", owner.join("."), data.join(" ")))
+    };
+    let mut text = String::from("$ORIGIN z.\n");
+    text.push_str(&line(&["z"], "SOA", 6, &["ns.z.", "h.z.", "1", "60", "60", "60", "60"], &rdata_wire(Kind::Soa), forms[0])?);
+    for (&ri, &f) in seq.iter().zip(&forms[1..]) {
+        let r = &menu[ri];
+        text.push_str(&line(&r.owner, r.mnem, wires[ri].0, &r.rd_abs, &wires[ri].1, f)?);
+    }
+    Some(text)
+}
+
+fn run_g2(sh: &Shared, k: usize, per_case_wd: bool, only: Option<usize>) -> (u64, u64) {
+    let menu = zone_menu();
+    let wires = zone_menu_wire();
+    let mut seqs: Vec<Vec<usize>> = vec![vec![]];
+    for n in 1..=k {
+        product(&vec![menu.len(); n], |ix| seqs.push(ix.to_vec()));
+    }
+    let evals = AtomicU64::new(0);
+    let failing = AtomicU64::new(0);
+    let idx: Vec<usize> = (0..seqs.len()).filter(|i| only.map_or(true, |o| o == *i)).collect();
+    idx.par_iter().for_each(|&si| {
+        let seq = &seqs[si];
+        if !per_case_wd {
+            sh.wd.enter(|| json!({"part": "generic-chunk", "space": "G2", "k": k, "seq_index": si}));
+        }
+        let mut l = Local::default();
+        let n = seq.len();
+        let canon_text = g2_text(&menu, &wires, seq, &vec![0; n + 1]).expect("canonical rendering exists");
+        let canon = observe_zone_wire(&canon_text, 0);
+        if let Ok(s) = &canon {
+            l.bump(&format!("generic.G2.canonical.{}", s.split(' ').next().unwrap_or("?")));
+        }
+        let eval = |f: &[usize]| -> Option<Option<(String, String, String)>> { Some(g_verdict(&g2_text(&menu, &wires, seq, f)?, None, Some(&canon))) };
+        product(&vec![4usize; n + 1], |f| {
+            let Some(text) = g2_text(&menu, &wires, seq, f) else { return };
+            if per_case_wd {
+                sh.wd.enter(|| json!({"part": "generic", "space": "G2", "k": k, "seq_index": si, "forms": f, "text": text, "canonical_text": canon_text}));
+            }
+            l.evals += 1;
+            l.nontrivial.push(fnv(text.as_bytes()));
+            if let Some(Some((stage, class, what))) = eval(f) {
+                failing.fetch_add(1, AO::Relaxed);
+                l.bump(&format!("generic.G2.failing.{stage}.{class}"));
+                let mut cur = f.to_vec();
+                loop {
+                    let mut changed = false;
+                    for i in 0..cur.len() {
+                        for v in 0..cur[i] {
+                            let mut t = cur.clone();
+                            t[i] = v;
+                            if let Some(Some(x)) = eval(&t) {
+                                if x.0 == stage && x.1 == class {
+                                    cur = t;
+                                    changed = true;
+                                    break;
+                                }
+                            }
+                        }
+                    }
+                    if !changed {
+                        break;
+                    }
+                }
+                // the records that still are in a non-canonical form, with
+                // their position class (type @ owner) instead of their index
+                let mut slots: Vec<String> = Vec::new();
+                for (i, v) in cur.iter().enumerate() {
+                    if *v != 0 {
+                        let who = if i == 0 { "SOA@z".to_string() } else { format!("{}@{}", menu[seq[i - 1]].mnem, menu[seq[i - 1]].owner.join(".")) };
+                        slots.push(format!("{who}={}", G2_FORM_NAMES[*v]));
+                    }
+                }
+                slots.sort();
+                slots.dedup();
+                let sig = format!("C07|generic|G2|{stage}|{}|{class}", slots.join(","));
+                if first_in_thread(&sig) {
+                    let min_text = g2_text(&menu, &wires, seq, &cur).unwrap_or_default();
+                    sh.ctx.violation(&sig, &format!("{what}; minimal rendering {min_text:?}"), json!({"part": "generic", "space": "G2", "k": k, "seq_index": si, "forms": f, "text": text, "canonical_text": canon_text, "minimal_text": min_text}));
+                }
+            }
+            if per_case_wd {
+                sh.wd.leave();
+            }
+        });
+        evals.fetch_add(l.evals, AO::Relaxed);
+        if !per_case_wd {
+            sh.wd.leave();
+        }
+        sh.absorb(l);
+    });
+    (evals.load(AO::Relaxed), failing.load(AO::Relaxed))
+}
+
+// G3: damaged generic forms
+
+/// (name, has to be rejected by the reader)
+const G3_DAMAGE: [(&str, bool); 12] = [
+    ("declared-length-one-less", true),
+    ("declared-length-one-more", true),
+    ("odd-number-of-digits", true),
+    ("non-hex-digit", true),
+    ("data-missing", true),
+    ("length-missing", true),
+    ("length-not-a-number", true),
+    ("length-65536", true),
+    ("empty-data-for-the-type", false),
+    ("first-half-of-the-data", false),
+    ("one-octet-too-many", false),
+    ("unclosed-parenthesis", false),
+];
+
+/// RDATA tokens of damage `d`; `split`: the hex data as two words.
+fn g3_tokens(rec: &GRec, d: usize, split: bool) -> Option<Vec<String>> {
+    let n = rec.wire.len();
+    let h = hex(&rec.wire);
+    let words = |h: &str| -> Option<Vec<String>> {
+        if !split {
+            Some(if h.is_empty() { Vec::new() } else { vec![h.to_string()] })
+        } else if h.len() >= 4 {
+            let cut = (h.len() / 4) * 2;
+            Some(vec![h[..cut].to_string(), h[cut..].to_string()])
+        } else {
+            None
+        }
+    };
+    let form = |len: String, data: Vec<String>| {
+        let mut t = vec!["\\#".to_string(), len];
+        t.extend(data);
+        Some(t)
+    };
+    match d {
+        0 if n >= 1 => form((n - 1).to_string(), words(&h)?),
+        1 => form((n + 1).to_string(), words(&h)?),
+        2 if n >= 1 => form(n.to_string(), words(&h[..h.len() - 1])?),
+        3 if n >= 1 => form(n.to_string(), words(&format!("g{}", &h[1..]))?),
+        4 if n >= 1 && !split => form(n.to_string(), Vec::new()),
+        5 if !split => Some(vec!["\\#".to_string()]),
+        6 => form("x".to_string(), words(&h)?),
+        7 => form("65536".to_string(), words(&h)?),
+        8 if n >= 1 && !split && !rec.typed.is_empty() => form("0".to_string(), Vec::new()),
+        9 if n >= 2 && !rec.typed.is_empty() => form((n / 2).to_string(), words(&h[..(n / 2) * 2])?),
+        10 if !rec.typed.is_empty() => form((n + 1).to_string(), words(&format!("{h}00"))?),
+        11 => {
+            let mut t = vec!["\\#".to_string(), n.to_string(), "(".to_string()];
+            t.extend(words(&h)?);
+            Some(t)
+        }
+        _ => None,
+    }
+}
+
+fn g3_case(rec: &GRec, pos: usize, d: usize, split: bool) -> Option<(String, usize)> {
+    let (mut text, before, _) = g_file_head(pos);
+    let mut toks = vec![format!("{}.", G_OWNERS[pos].1.join(".")), "IN".to_string(), "60".to_string(), rec.mnem.to_string()];
+    toks.extend(g3_tokens(rec, d, split)?);
+    text.push_str(&toks.join(" "));
+    text.push('\n');
+    text.push_str(G_SENTINEL);
+    Some((text, before.len()))
+}
+
+/// What the reader made of a text, without wordings: entries + kind of end.
+fn g3_outcome(text: &str) -> Result<(Vec<Vec<u8>>, &'static str), String> {
+    guard(|| read_all(reader_a(text.as_bytes()), text.len() + 2)).map(|o| {
+        (
+            o.entries,
+            match o.end {
+                End::Eof => "eof",
+                End::Err(_) => "error",
+                End::Overrun => "overrun",
+            },
+        )
+    })
+}
+
+fn g3_verdict(rec: &GRec, pos: usize, d: usize, split: bool) -> Option<Option<(String, String, String)>> {
+    let (text, before) = g3_case(rec, pos, d, split)?;
+    if let Some(v) = g_verdict(&text, None, None) {
+        return Some(Some(v));
+    }
+    let out = g3_outcome(&text);
+    if G3_DAMAGE[d].1 {
+        if let Ok((entries, end)) = &out {
+            if !(*end == "error" && entries.len() == before) {
+                return Some(Some((
+                    "reader".into(),
+                    if *end == "error" { "damaged-entry-returned-before-error".into() } else { "damaged-accepted".into() },
+                    format!("a generic RDATA form that is not well formed ({}) ends in {end} after {} entries; expected an error after the {before} entries in front of it", G3_DAMAGE[d].0, entries.len()),
+                )));
+            }
+        }
+    }
+    if split {
+        // the same hex data as one word: same entries, same kind of end, same zone verdict
+        if let Some((one, _)) = g3_case(rec, pos, d, false) {
+            let out1 = g3_outcome(&one);
+            if out1 != out {
+                return Some(Some(("reader".into(), "hex-words-differ".into(), format!("the data as one word gives {out1:?}, as two words {out:?}"))));
+            }
+            let (z1, z2) = (observe_zone_wire(&one, 0), observe_zone_wire(&text, 0));
+            if let Some(c) = zone_diff_class(&z1, &z2) {
+                return Some(Some(("zone".into(), format!("hex-words-differ:{c}"), format!("the data as one word gives {z1:?}, as two words {z2:?}"))));
+            }
+        }
+    }
+    Some(None)
+}
+
+fn run_g3(sh: &Shared, per_case_wd: bool, only: Option<usize>) -> (u64, u64) {
+    let menu = gen_menu();
+    let evals = AtomicU64::new(0);
+    let failing = AtomicU64::new(0);
+    let idx: Vec<usize> = (0..menu.len()).filter(|i| only.map_or(true, |o| o == *i)).collect();
+    idx.par_iter().for_each(|&ri| {
+        let rec = &menu[ri];
+        if !per_case_wd {
+            sh.wd.enter(|| json!({"part": "generic-chunk", "space": "G3", "rec": ri}));
+        }
+        let mut l = Local::default();
+        product(&[G_OWNERS.len(), G3_DAMAGE.len(), 2], |c| {
+            let (pos, d, split) = (c[0], c[1], c[2] == 1);
+            let Some((text, _)) = g3_case(rec, pos, d, split) else { return };
+            if per_case_wd {
+                sh.wd.enter(|| json!({"part": "generic", "space": "G3", "rec": ri, "pos": pos, "damage": d, "split": split, "text": text}));
+            }
+            l.evals += 1;
+            l.nontrivial.push(fnv(text.as_bytes()));
+            l.bump(&format!("generic.G3.cases.{}", G3_DAMAGE[d].0));
+            if let Some(Some((stage, class, what))) = g3_verdict(rec, pos, d, split) {
+                failing.fetch_add(1, AO::Relaxed);
+                l.bump(&format!("generic.G3.failing.{stage}.{class}"));
+                let sig = format!("C07|generic|G3|{stage}|type={}|owner={}|damage={}|{class}", rec.mnem, G_OWNERS[pos].0, G3_DAMAGE[d].0);
+                if first_in_thread(&sig) {
+                    sh.ctx.violation(&sig, &format!("{what}; input {text:?}"), json!({"part": "generic", "space": "G3", "rec": ri, "pos": pos, "damage": d, "split": split, "text": text}));
+                }
+            }
+            if per_case_wd {
+                sh.wd.leave();
+            }
+        });
+        evals.fetch_add(l.evals, AO::Relaxed);
+        if !per_case_wd {
+            sh.wd.leave();
+        }
+        sh.absorb(l);
+    });
+    (evals.load(AO::Relaxed), failing.load(AO::Relaxed))
+}
+
 // ===================================================================
 // main
 // ===================================================================
@@ -2641,6 +3344,28 @@ fn replay(sh: &Shared, lc: &LayoutCounters, case: &Value) {
         "limits-chunk" => {
             run_limits(sh, true, Some((case["from"].as_u64().unwrap_or(0) as usize, case["to"].as_u64().unwrap_or(0) as usize)));
         }
+        "generic" | "generic-chunk" => {
+            if let Some(t) = case["text"].as_str() {
+                println!("input: {t:?}");
+                sh.wd.enter(|| case.clone());
+                println!("reader: {:?}", guard(|| read_all(reader_a(t.as_bytes()), t.len() + 2)));
+                println!("try_from + ZoneBuilder: {:?}", observe_zone_wire(t, 0));
+                println!("new + insert + ZoneBuilder: {:?}", observe_zone_wire(t, 1));
+                sh.wd.leave();
+            }
+            let n = |k: &str| case[k].as_u64().unwrap_or(0) as usize;
+            match case["space"].as_str() {
+                Some("G1") => {
+                    run_g1(sh, true, Some((n("rec"), n("pos"))));
+                }
+                Some("G2") => {
+                    run_g2(sh, n("k"), true, Some(n("seq_index")));
+                }
+                _ => {
+                    run_g3(sh, true, Some(n("rec")));
+                }
+            }
+        }
         _ => println!("unknown replay case"),
     }
 }
@@ -2662,6 +3387,7 @@ fn main() {
 
     let (mut limits_cases, mut limits_failing) = (0u64, 0u64);
     let (mut zone_cases, mut zone_failing) = (0u64, 0u64);
+    let (mut generic_cases, mut generic_failing) = ([0u64; 3], 0u64);
     if let Some(path) = &ctx.replay {
         let text = std::fs::read_to_string(path).expect("replay file");
         let v: Value = serde_json::from_str(&text).expect("replay json");
@@ -2695,6 +3421,12 @@ fn main() {
         zone_cases = n;
         zone_failing = f;
         lap("zone route");
+        let (n1, f1) = run_g1(&sh, false, None);
+        let (n2, f2) = run_g2(&sh, if quick { 2 } else { 3 }, false, None);
+        let (n3, f3) = run_g3(&sh, false, None);
+        generic_cases = [n1, n2, n3];
+        generic_failing = f1 + f2 + f3;
+        lap("generic renderings");
     }
 
     // samples
@@ -2728,8 +3460,11 @@ fn main() {
                        "layout_L1": "3 owners x 10 kinds (A, TXT, SOA, MX, TYPE65280, MX to origin, $INCLUDE, NSEC, NSEC3, SVCB), slots dollar-ttl(2) x owner(5) x class-ttl(5) x data-form(<=6) x separator(3) x continuation(1+4*gaps) x line-end(9) x sentinel(3)",
                        "limits_L3": "label length {1,62,63,64,65} x {plain, one \\DDD / \\X / escaped dot at every octet, all \\DDD} x label {alone,first,middle,last} x {relative,absolute} x {owner, MX exchange, SOA mname, SOA rname, $ORIGIN, $INCLUDE origin}; name wire length {254,255,256} x {4 long labels, 125 one-octet labels} x {relative,absolute} x {plain, all \\DDD, one \\DDD / \\X in first/middle/last label at first/last octet} x {owner, MX exchange, $ORIGIN, $INCLUDE origin}; character string length {0,1,254,255,256} x {unquoted, quoted} x {plain, all \\DDD, one \\DDD / \\X / space / escaped quote at every octet} x {TXT only/first/second string, HINFO cpu/os}; integers {0,max-1,max,max+1,max+10,next power of ten,10*max(,99999999999)} x {plain, 1 or 3 leading zeros} x {TTL after/before/without class, $TTL, SOA serial/refresh/retry/expire/minimum, MX preference, SSHFP algorithm/type}; TTL-typed fields use 2^31-1 as the largest value that must be accepted and 2^32 as the smallest that must be rejected",
                        "zone_route_Z": if quick { "SOA + every sequence of <= 2 records from a 10-record menu (apex NS, A, TXT, second A, cut NS, glue A, DS, CNAME, A next to the CNAME, out-of-zone A); renderings SOA owner(2) x style(2), per record owner(3) x class-ttl(2) x style(2); routes try_from and new+set_origin+insert" } else { "SOA + every sequence of <= 3 records from a 10-record menu (apex NS, A, TXT, second A, cut NS, glue A, DS, CNAME, A next to the CNAME, out-of-zone A); renderings SOA owner(2) x style(2), per record owner(3) x class-ttl(2) x style(2); routes try_from and new+set_origin+insert" },
+                       "generic_G": if quick { GENERIC_COVERAGE.replace("<K>", "2") } else { GENERIC_COVERAGE.replace("<K>", "3") },
                        "layout_L2_setup": "files of <= 2 records with all records in plain style are also read without the $ORIGIN line after set_origin(z.), and after set_origin(z.) + set_default_class(IN) (class may then be omitted from the first record on)",
                        "layout_L2": if quick { "files of 1 and 2 records over 3 owners x ttl{60,3600} x {A,TXT,SOA,MX,TYPE65280}; per record $TTL(3) x $ORIGIN-change(2, before record 2) x owner(3) x class-ttl(5) x style(4)" } else { "files of 1 and 2 records over 3 owners x ttl{60,3600} x {A,TXT,SOA,MX,TYPE65280} and of 3 records over 3 owners x ttl{60,3600} x {A,TXT}; per record $TTL(3) x $ORIGIN-change(2, before record 2) x owner(3) x class-ttl(5) x style(4)" }},
+            "generic_renderings": {"G1": generic_cases[0], "G2": generic_cases[1], "G3_damaged": generic_cases[2]},
+            "generic_failing": generic_failing,
             "zone_route_renderings": zone_cases,
             "zone_route_failing": zone_failing,
             "limits_cases": limits_cases,
